@@ -142,6 +142,12 @@ pub fn emit(sh: &mut Shards, st: &mut Stats, case: &Case, source: &str) {
     }
     for s in &case.stmts {
         for e in &s.entries {
+            if let Some(d) = chrono::NaiveDate::from_ymd_opt(e.booking.y, e.booking.m, e.booking.d) {
+                st.count(&format!("date:booking:{}", crate::caldate::class_of(d)));
+            }
+            if let Some(d) = e.value.as_ref().and_then(|v| chrono::NaiveDate::from_ymd_opt(v.y, v.m, v.d)) {
+                st.count(&format!("date:value:{}", crate::caldate::class_of(d)));
+            }
             if !e.details.is_empty() {
                 let multi = if e.details.len() >= 2 { "batch of 2+ TxDtls" } else { "single TxDtls" };
                 st.count(&match &e.batch {
@@ -305,7 +311,7 @@ pub fn run(o: &Opts) {
     let mut st = Stats::new();
     // smaller files in the thorough tier: coqc memory grows with the size of the case literal
     let mut sh = Shards::new(&o.out, if o.thorough { o.shards * 6 } else { o.shards }, HEADER);
-    st.rule = "Camt053 XML generated from statement data (1-2 statements of 0-8 entries; credits and debits; entries without details, with one detail, batches of 2-4 details summing to the entry, whose NtryDtls has a Btch header with NbOfTxs = the number of TxDtls (half), no Btch element at all (a quarter), or an NbOfTxs that is smaller (possibly 0) or larger than the number of TxDtls (the importer does not read the field: every TxDtls is a record); included / not-included / zero / credit charge records on entries and details with TxAmt explaining included charges; value date absent / equal / different, Dt and DtTm; both row orders; OPBD/CLBD in either order; opening balance of exactly 0 and closing balance of exactly 0 in about 1/8 of the statements each; per-record rewrite rules giving payee / account / pending) plus inconsistent variants (wrong closing balance, batch not summing, unexplained charge, missing balance), foreign-currency details with exchange rates and error variants; run through import(Format::IsoCamt053) + to_double_entry, printed as ImportCmd does and fed with a funding transaction to report::process; non-trivial = at least 2 entries and at least one batch or non-zero charge; distinct by XML + configuration".into();
+    st.rule = "Camt053 XML generated from statement data (1-2 statements of 0-8 entries; credits and debits; entries without details, with one detail, batches of 2-4 details summing to the entry, whose NtryDtls has a Btch header with NbOfTxs = the number of TxDtls (half), no Btch element at all (a quarter), or an NbOfTxs that is smaller (possibly 0) or larger than the number of TxDtls (the importer does not read the field: every TxDtls is a record); included / not-included / zero / credit charge records on entries and details with TxAmt explaining included charges; entries starting up to 8 days before a calendar boundary drawn on purpose (the days around New Year whose ISO week belongs to the neighbouring year, 1 January / 31 December, leap days, 28 February / 1 March of 1900 and 2100, month ends, years 1900-2100) and running across it; value date absent / equal / up to two days earlier, Dt and DtTm with offsets from -12:00 to +14:00; both row orders; OPBD/CLBD in either order; opening balance of exactly 0 and closing balance of exactly 0 in about 1/8 of the statements each; per-record rewrite rules giving payee / account / pending) plus inconsistent variants (wrong closing balance, batch not summing, unexplained charge, missing balance), foreign-currency details with exchange rates and error variants; run through import(Format::IsoCamt053) + to_double_entry, printed as ImportCmd does and fed with a funding transaction to report::process; non-trivial = at least 2 entries and at least one batch or non-zero charge; distinct by XML + configuration".into();
     st.assumptions.push("quick-xml/serde deserialisation is an oracle: the model starts from the statement data the XML was written from (xmlnode is a private module)".into());
     st.assumptions.push("amount mantissas below 10^7 with scale <= 4: every Decimal sum is exact; no negative-zero amount text in the XML".into());
     st.assumptions.push("the rewrite-rule extractor is an oracle here (C17): each record's fragment is fixed by one anchored rule on its additional info".into());
